@@ -243,7 +243,7 @@ def eval_cases(tag, header, terms, shard=250, timeout=900):
             body = m.group(1).strip()
             if body:
                 for tok in body.split(";"):
-                    failing.append(start + int(tok.strip()))
+                    failing.append(start + int(tok.strip().replace("%nat", "")))
     # keep only failing shards' sources for inspection; remove compiled junk
     for f in os.listdir(cdir):
         if not f.endswith(".v"):
@@ -344,6 +344,32 @@ def safe_run(corr, case):
         return {"__harness_exception__": f"{type(e).__name__}: {e}", "trace": traceback.format_exc()[-1500:]}
 
 
+_PAR_STATE = {}
+
+
+def _par_worker(i):
+    c, cases = _PAR_STATE["c"], _PAR_STATE["cases"]
+    return safe_run(c, cases[i])
+
+
+def run_all(corr, cases):
+    """Run the implementation on every case; forked worker processes when there are many cases.
+    (Each case is independent: run_impl builds its objects from the JSON-able case.)"""
+    n = len(cases)
+    if n < 64 or os.environ.get("VERIF_PAR", "1") == "0" or getattr(corr, "sequential", False):
+        return [safe_run(corr, k) for k in cases]
+    import multiprocessing as mp
+
+    _PAR_STATE["c"], _PAR_STATE["cases"] = corr, cases
+    try:
+        if cases:
+            safe_run(corr, cases[0])  # import everything once in the parent so that children inherit it
+        with mp.get_context("fork").Pool(min(JOBS, max(1, n // 16))) as pool:
+            return pool.map(_par_worker, range(n), chunksize=max(1, n // (JOBS * 8)))
+    finally:
+        _PAR_STATE.clear()
+
+
 def canon(x):
     return json.dumps(x, sort_keys=True, default=str)
 
@@ -438,8 +464,12 @@ def run_check(prop, tier, seed):
         n_corr += 1
         st = {"cases": 0, "nontrivial": 0, "coq_disagreements": 0, "oracle_failures": 0}
         corr_stats[c.name] = st
+        _t = time.time()
         cases = list(c.cases(tier, rng))
-        obs = [safe_run(c, k) for k in cases]
+        st["t_generate_s"] = round(time.time() - _t, 2)
+        _t = time.time()
+        obs = run_all(c, cases)
+        st["t_impl_s"] = round(time.time() - _t, 2)
         hexc = [o for o in obs if isinstance(o, dict) and "__harness_exception__" in o]
         if hexc:
             broken.append({"kind": "correspondence", "name": c.name, "error": "harness exception", "detail": hexc[0]})
@@ -455,6 +485,7 @@ def run_check(prop, tier, seed):
             for i in sorted({0, len(cases) // 2, len(cases) - 1}):
                 samples.append({"correspondence": c.name, **c.describe(cases[i], obs[i])})
         # oracle on every implementation output
+        _t = time.time()
         for k, o in zip(cases, obs):
             if isinstance(o, dict) and "__harness_exception__" in o:
                 continue
@@ -462,6 +493,8 @@ def run_check(prop, tier, seed):
             if msg:
                 st["oracle_failures"] += 1
                 violations.append((c, k, o, msg))
+        st["t_oracle_s"] = round(time.time() - _t, 2)
+        _t = time.time()
         # the model, evaluated in Coq on the same inputs
         corr_ok = False
         if not ok_models:
@@ -486,6 +519,7 @@ def run_check(prop, tier, seed):
                     broken.append({"kind": "correspondence", "name": c.name, "error": "model and implementation disagree", "detail": detail})
                 else:
                     corr_ok = True
+        st["t_coq_s"] = round(time.time() - _t, 2)
         if corr_ok:
             n_corr_ok += 1
 
